@@ -81,6 +81,14 @@ def walker_enqueue(F, R, bodies, tag="C15-a", pid="C15"):
             R.ob(tag, "unconditional seen.insert(%s) is followed by its push" % expr_text(ins["args"][0]), ok,
                  "`seen.insert(%s)` result is not used to gate a push and no push follows: the specifier is marked seen but never visited" % expr_text(ins["args"][0]), where(ins),
                  key=pid + "|" + tag + "|insert-without-push|%s" % ins["_top"]["path"])
+            # its result is ignored, so it only avoids duplicates if nothing
+            # else has been marked seen before it (the set starts empty and the
+            # roots are a set by contract)
+            earlier = [o for o in inserts if o is not ins and o["_top"] is ins["_top"] and may_reach(F, o, ins)]
+            R.ob(tag, "the unguarded seeding of `%s` happens before anything else is marked seen" % expr_text(ins["args"][0]), not earlier,
+                 "`seen.insert(%s)` ignores its result but other specifiers are already marked seen when it runs (%s): a specifier seeded twice (e.g. a root that is also an import target) is queued and yielded twice" % (
+                     expr_text(ins["args"][0]), ", ".join(where(o).split(" in ")[0] for o in earlier[:2])),
+                 where(ins), key=pid + "|" + tag + "|unguarded-seed-after-insert|%s" % ins["_top"]["path"])
             continue
         # the insert must be the last-evaluated conjunct of the condition
         c = iff["cond"]
